@@ -28,6 +28,10 @@ def run(chk):
     r3 = chk.rule("R17.3", "flag = was-missing and now-present: missing set captured before the first store; flag initialised False; existing flag skips the column", 5)
     r4 = chk.rule("R17.4", "default columns interpolated: temperature, observed (+ ghi when present); outputs carry one interpolated_<col> flag per column", 3)
 
+    r5 = chk.rule("R17.5", "gap-free frame over whole local days: contiguous hourly index from wall-clock 00:00 of the first day to wall-clock 23:00 of the last (shared with C06)", 4)
+    from rules.hourlyframe import check_contiguous_index
+    check_contiguous_index(chk, r5)
+
     sd = chk.repo.func(HOURLY_DATA, "_HourlyData._set_data")
     cfg = CFG(sd.node)
     rd = ReachingDefs(sd.node, cfg)
